@@ -316,6 +316,54 @@ theorem emitted_stub_jump_decodes (env : Env) (dx : BitVec 64) :
     rw [this, decode_BR env _ (by decide)]; decide
   simp [wordsOf, hl, hb]
 
+/-! ### totality of argument decoding — by mechanical translation of `decodeArg` (tools/a64args → Gen/A64Args.lean)
+
+    `Gen.A64Args.decodeArgOut k x` is the Go `decodeArg(k, x)` as far as "non-nil / nil / panic" goes, produced from the Go AST on
+    every run: all 311 case clauses, the four `handle_*` helpers, 91 of the 93 `canDecode` predicates (the two that call `bit_count`,
+    a loop, are listed in `Gen.A64Args.untranslated`).  Every operation that can panic in Go (index, division by a variable, shift by a
+    signed variable) is translated to an explicit test with a `panic` outcome; constructs outside the fragment make a case
+    `unknown`.  `Gen.A64Args.badKinds` lists the kinds with a `panic` or `unknown` leaf; the generated lemma `decodeArgOut_ok` covers
+    all others, for all words.  Trusted here: the translator (validated on every run against the real `decodeArg` and the real
+    predicates, see checks/C17.py).  NOT covered: termination of the one loop in `handle_bitmasks` (`Gen.A64Args.loops`), the value
+    of the argument, and `Inst.String()`. -/
+
+/-- for EVERY table row, every argument kind it uses and EVERY one of the 2^32 words, argument decoding returns an argument or
+    nil: it never panics (and no row uses a kind outside the translated fragment). -/
+theorem argdec_total (r : Row) (hr : r ∈ table) (k : Nat) (hk : k ∈ r.args) (x : BitVec 32) :
+    Gen.A64Args.decodeArgOut k x = .val ∨ Gen.A64Args.decodeArgOut k x = .nil := by
+  have hall : table.all (fun r => r.args.all (fun k => !Gen.A64Args.badKinds.contains k)) = true := by decide +kernel
+  have h1 := List.all_eq_true.mp (List.all_eq_true.mp hall r hr) k hk
+  exact Gen.A64Args.decodeArgOut_ok k x (by simpa using h1)
+
+/-- … and in fact for every kind number whatsoever today: no case of the switch contains an operation that can panic -/
+theorem argdec_no_partial_case : Gen.A64Args.badKinds = [] := by decide
+
+/-- every `canDecode` predicate attached to a row is translated, except the two that count bits with a loop -/
+theorem preds_translated :
+    table.all (fun r => !r.cond || (genCond r.condId).isSome ||
+      ["sxtl_sshll_asimdshf_l_cond", "uxtl_ushll_asimdshf_l_cond"].contains ((condNames[r.condId - 1]?).getD "")) = true := by
+  decide +kernel
+
+/-- ORACLE-FREE decoding: with the translated decoders and predicates plugged in, the result of `Decode` on any word no longer
+    depends on the oracle, except through the untranslated predicates (two today): decodability, chosen row and opcode of all
+    2^32 words are a function of the regenerated table and the regenerated translation alone. -/
+theorem decodeFull_oracle_free (fb1 fb2 : Env) (x : BitVec 32)
+    (hc : ∀ i c x, genCond c = none → fb1.condOk i c x = fb2.condOk i c x) :
+    decodeFull fb1 x = decodeFull fb2 x := by
+  have hall : table.all (fun r => r.args.all (fun k => !Gen.A64Args.badKinds.contains k)) = true := by decide +kernel
+  exact decodeFrom_genEnv_indep fb1 fb2 x hc table 0
+    (fun r hr k hk => by simpa using List.all_eq_true.mp (List.all_eq_true.mp hall r hr) k hk)
+
+/-- the class theorems above hold in particular for the oracle-free model -/
+example (fb : Env) : view (decodeFull fb 0x94000010#32) = some ("BL", [.pcrel 64#64]) := by
+  have := decode_BL (genEnv fb) 0x94000010#32 (by decide)
+  have hs : specImm26 0x94000010#32 = 64#64 := by decide
+  rw [hs] at this
+  exact this
+
+/-- `ADD W0, W0, #0, LSL #24` has shift field 2: `arg_IAddSub` returns nil (decode.go:111), so the word is not an ADD (immediate) -/
+example : Gen.A64Args.decodeArgOut 16 0x11800000#32 = .nil ∧ Gen.A64Args.decodeArgOut 16 0x11400000#32 = .val := by decide
+
 /-! ### what the scans rely on: "error / Op == 0" (func_arm64.go:45-58, :118-126) -/
 
 /-- a successful decode never carries `Op == 0`: the `inst.Op == 0 && code[0] == 0x00` padding test of both scans can
@@ -427,6 +475,6 @@ example : ∀ env, getFuncSize env (fun c => if c = 0 then 0xd503201f#32 else 0#
   | some (some r) =>
     have h1 := decodeDef_sound env _ _ hd
     have hop := decode_op_ne_zero env _ r h1
-    simp [getFuncSize, h1, h0, isInt0, prologueAt, hop]
+    simp [getFuncSize, h1, h0, isInt0, prologueAt]
 
 end C17
